@@ -71,7 +71,7 @@ def run(ctx):
     if T:
         three = list(itertools.product(ELEMENTS, repeat=3))
         rnd.shuffle(three)
-        combos += three[:1500]
+        combos += three[:300]
     items = [(c, tr, p, m, d) for c in combos for tr in (False, True) for p in PREFIXES for m in MODES for d in ((2, 3) if T else (2,))]
     if not T:
         rnd.shuffle(items)
